@@ -21,7 +21,43 @@ RULE = ("run = 6-40 generator invocations (CLI after restart; manual entry point
 
 
 def n_fixed(tier):
-    return 7
+    return 8
+
+
+_LEGACY = None
+
+
+def legacy_index():
+    """Files written by an earlier version of the tool (static artefacts under /verif/legacy/generator)."""
+    global _LEGACY
+    if _LEGACY is None:
+        import json
+        import os
+        d = os.path.join(os.path.dirname(os.path.dirname(os.path.dirname(os.path.abspath(__file__)))), "legacy", "generator")
+        try:
+            idx = json.load(open(os.path.join(d, "index.json")))["files"]
+            _LEGACY = {fn: (prm, open(os.path.join(d, fn), "rb").read()) for fn, prm in sorted(idx.items())}
+        except (OSError, ValueError, KeyError):
+            _LEGACY = {}
+    return _LEGACY
+
+
+def _legacy_spec():
+    """The user's inputs/ folder already holds files an earlier version wrote, among them the whole-percent
+    neighbours k-1 of the once-truncated k = 29, 57, 58; then those k are generated."""
+    leg = legacy_index()
+    keep = [fn for fn, (prm, _d) in leg.items() if all(round(prm[k] * 100) not in (29, 58) for k in ("rb", "lb", "tb", "lt"))]
+    opl = [{"op": "plant_legacy", "files": keep}]
+    base = None
+    for fn, (prm, _d) in leg.items():
+        if all(prm[k] == 0.1 for k in ("rb", "lb", "tb")) and prm["lt"] == 0.3 and not prm["force_down"] and prm["seed"] == 5:
+            base = prm
+    if base is not None:
+        for key in ("rb", "lb", "tb", "lt"):
+            for k in (29, 57, 58, 27, 55):
+                opl.append({"op": "gen_cli", "params": dict(base, **{key: k / 100}), "same_process": k == 57})
+        opl.append({"op": "gen_cli", "params": dict(base)})
+    return {"cfg": {"klass": "legacy-neighbours"}, "ops": opl}
 
 
 def fixed_specs(tier, ctx):
@@ -42,6 +78,7 @@ def fixed_specs(tier, ctx):
         specs.append({"cfg": {"klass": "sweep-ambient-" + mode},
                       "ops": [{"op": "gen_cli", "params": dict(base, rb=k / 100, lt=((k * 7) % 99 + 1) / 100), "same_process": True,
                                "env": {"ambient": {"decimal_rounding": mode, "decimal_prec": 28}}} for k in range(1, 100)]})
+    specs.append(_legacy_spec())
     return specs
 
 
@@ -56,6 +93,13 @@ def gen(rng, tier, ctx):
     if marathon:
         session = True
         base.update(width=1, length=rng.randint(1, 2))
+        cur = dict(base)
+    leg = legacy_index()
+    if leg and not marathon and rng.random() < 0.1:
+        # the folder already holds files of an earlier version; the run works next to them
+        names = sorted(leg)
+        opl.append({"op": "plant_legacy", "files": rng.sample(names, rng.randint(3, len(names)))})
+        base = dict(leg[rng.choice(names)][0])
         cur = dict(base)
     for _ in range(rng.randint(150, 400) if marathon else rng.randint(6, 40 if tier == "thorough" else 20)):
         r = rng.random()
@@ -134,6 +178,9 @@ def readable(spec):
 def simplify(spec):
     ops_ = spec["ops"]
     for i, op in enumerate(ops_):
+        if op["op"] == "plant_legacy" and len(op["files"]) > 1:
+            for j in range(len(op["files"])):
+                yield dict(spec, ops=ops_[:i] + [dict(op, files=op["files"][:j] + op["files"][j + 1:])] + ops_[i + 1:])
         if op["op"] == "gen_cli":
             p = op["params"]
             for key, small in (("width", 1), ("length", 1), ("seed", 0), ("max_reward", 1)):
@@ -156,6 +203,16 @@ def execute(spec, w, ctx):
         kind = op["op"]
         if kind == "restart":
             w.restart(op.get("entropy", 0))
+            continue
+        if kind == "plant_legacy":
+            leg = legacy_index()
+            for fn in op["files"]:
+                if fn in leg:
+                    prm, data = leg[fn]
+                    w.fs.write_bytes("inputs/" + fn, data)
+                    written["inputs/" + fn] = canon(genops.want_fields({"op": "gen_cli", "params": prm}))
+                    w.fired("file-of-an-earlier-version-on-disk")
+            events.append([i_op, "plant_legacy", len(op["files"])])
             continue
         if kind not in ("gen_cli", "gen_manual"):
             continue
